@@ -30,6 +30,9 @@ package templater
 //@   init nTrav := 0
 //@   site deepcopy.TraverseStringsFunc#0 ghost nTrav := nTrav + 1
 //@   ensures nTrav <= 1                                                                                         [C19]
+// C11/C18: unless an earlier error is pending, what is handed back went through the traversal, which rebuilds
+// lists and maps: a compiled task never shares a list or map value with the task definition or with another call
+//@   ensures old(cache.err) == nil ==> nTrav == 1                                                               [C11,C18]
 //@ func ReplaceWithExtra$1
 //@   init nParse := 0
 //@   site (*Template).Parse#0 requires arg1 == v                                                                [C19]
